@@ -234,3 +234,62 @@ Proof.
   intros H. apply refused_everywhere in H. destruct H as [_ [_ [_ [O I]]]].
   unfold connect_in, connect_out. rewrite O, I. auto.
 Qed.
+
+(* ---- a peer connected from several IPs: BanPeer bans every one of them and disconnects the peer *)
+Definition nonneg_scores (g : gater) : Prop := forall ip, 0 <= score_of g ip.
+
+Lemma peer_ban_effect n ip pid now : nonneg_scores (gt n) -> 0 <= now -> 0 <= exp_secs (gt n) ->
+  let n' := peer_ban n (ip, Some pid) now in
+  banned (gt n') ip = true /\ nonneg_scores (gt n') /\ exp_secs (gt n') = exp_secs (gt n) /\
+  (forall k, banned (gt n) k = true -> banned (gt n') k = true) /\ connected n' pid = false /\
+  (forall q, connected n q = false -> connected n' q = false).
+Proof.
+  intros NN T E. unfold peer_ban. cbn [fst snd].
+  pose proof (add_penalty_score (gt n) ip max_penalty now) as [S1 [S2 [O [_ EX]]]].
+  assert (H' : max_penalty <= score_of (gt n) ip + max_penalty) by (specialize (NN ip); lia).
+  pose proof (threshold_bans (gt n) ip max_penalty now H') as [B _]. lia.
+  destruct (add_penalty (gt n) ip max_penalty now) as [g' ns]. cbn in *.
+  split; auto. split.
+  { intros k. destruct (N.eq_dec k ip) as [->|D]. rewrite S2. specialize (NN ip). unfold max_penalty. lia.
+    unfold score_of. rewrite O; auto. apply NN. }
+  split; auto. split.
+  { intros k Bk. destruct (N.eq_dec k ip) as [->|D]; auto. unfold banned in *. rewrite O; auto. }
+  split. apply disconnect_not_connected.
+  intros q Cq. unfold connected in *. cbn. induction (conns n) as [|c cs IH]; cbn in *; auto.
+  apply orb_false_iff in Cq. destruct Cq as [C1 C2]. destruct (negb (fst c =? pid)%N); cbn; auto. rewrite C1. auto.
+Qed.
+
+Lemma ban_fold cs : forall n pid now, nonneg_scores (gt n) -> 0 <= now -> 0 <= exp_secs (gt n) ->
+  let n' := fold_left (fun n' (c : N * N) => peer_ban n' (snd c, Some pid) now) cs n in
+  (forall c, In c cs -> banned (gt n') (snd c) = true) /\
+  (forall k, banned (gt n) k = true -> banned (gt n') k = true) /\
+  (cs <> [] \/ connected n pid = false -> connected n' pid = false).
+Proof.
+  induction cs as [|c cs IH]; intros n pid now NN T E; cbn [fold_left].
+  - split. intros c []. split; auto. intros [H|H]; auto. congruence.
+  - pose proof (peer_ban_effect n (snd c) pid now NN T E) as [B [NN' [EX [K [D _]]]]].
+    specialize (IH (peer_ban n (snd c, Some pid) now) pid now NN' T). rewrite EX in IH. specialize (IH E).
+    destruct IH as [I1 [I2 I3]]. split.
+    + intros x [<-|Hx]; auto.
+    + split; auto.
+Qed.
+
+Lemma ban_peer_all_ips n pid now : nonneg_scores (gt n) -> 0 <= now -> 0 <= exp_secs (gt n) -> connected n pid = true ->
+  let n' := ban_peer_id n pid now in
+  (forall ip, In (pid, ip) (conns n) -> banned (gt n') ip = true /\ inbound_ok (gt n') (Some ip) = false /\
+                                        outbound_ok (gt n') (Some ip) = false) /\
+  connected n' pid = false.
+Proof.
+  intros NN T E C. unfold ban_peer_id.
+  pose proof (ban_fold (filter (fun c => (fst c =? pid)%N) (conns n)) n pid now NN T E) as [I1 [_ I3]].
+  split.
+  - intros ip Hin. assert (B : banned (gt (fold_left (fun n' (c : N * N) => peer_ban n' (snd c, Some pid) now)
+                                    (filter (fun c => (fst c =? pid)%N) (conns n)) n)) ip = true).
+    { apply (I1 (pid, ip)). apply filter_In. split; auto. cbn. apply N.eqb_refl. }
+    split; auto. match type of B with banned ?g _ = true =>
+      assert (R : banned g ip || blk g ip = true) by (rewrite B; reflexivity); apply refused_everywhere in R; tauto end.
+  - apply I3. left. unfold connected in C. intros F.
+    assert (X : existsb (fun c => (fst c =? pid)%N) (conns n) = false).
+    { clear - F. induction (conns n) as [|c cs IH]; cbn in *; auto. destruct (fst c =? pid)%N; [discriminate | auto]. }
+    congruence.
+Qed.
